@@ -310,6 +310,9 @@ def plan_C02(c):
 
 def plan_C03(c):
     c.mc('MC_SpecLaws', cfg='MC_SpecLaws' if c.tier != 'quick' else 'MC_SpecLaws_quick')
+    if c.tier != 'quick':
+        c.mc('MC_Refine', cfg='MC_Refine_ok_full')     # DivRefines: checked_div_rounded at scale 18 + normalize refines DivOk
+    c.mc('MC_Refine', cfg='MC_Refine_div_no_norm', expect='violation')
     g_small(c, ['div', 'checked_div'])
     g_maxquot(c, 'div')
     g_knuth(c, 'div')
@@ -382,7 +385,47 @@ def plan_C06(c):
         bs = [b for k in idx for b in ALPHABET[k - 1]]
         calls.append({'ev': 'parse', 't': 1, 'form': forms[i % 4], 'radix': 10, 'bs': bs})
     run_vectors(c, calls, 'strings')
+    g_parser_paths(c)
     v(c, 'c06', 3000, 80000)
+
+
+def g_parser_paths(c):
+    """MC_Parser: the implementation-shaped step machine of parser.rs / from_str.rs in miniature.  (1) TLC checks it against
+    the declarative rule ParseOk for every string up to the bound (and rejects three broken variants); (2) every distinct
+    action path of the machine becomes implementation tests: representatives of the path, with each 2-digit chunk of the
+    model expanded to m 8-digit chunks and each single digit to r < 8 digits."""
+    c.mc('MC_Parser', cfg='MC_Parser_ok' if c.tier == 'quick' else 'MC_Parser_ok_thorough')
+    for ctl in ('wrap_add', 'wrap', 'lz_invalid'):
+        c.mc('MC_Parser', cfg='MC_Parser_' + ctl, expect='violation')
+    paths = {}
+    for pay in c.generate('MC_Parser', prefix='PATH', cfg='MC_Parser_gen_' + ('quick' if c.tier == 'quick' else 'thorough')):
+        j = json.loads(pay)
+        paths.setdefault(tuple(j['p']), []).append(tuple(j['s']))
+    c.cov.setdefault('parser_paths', len(paths))
+    forms = ['from_str', 'try_from_str', 'try_from_string', 'from_str_radix']
+    calls = []
+    nrep = 3 if c.tier == 'quick' else 8
+    for pi, (path, strs) in enumerate(sorted(paths.items())):
+        strs = sorted(strs)
+        picks = {strs[(c.seed + k * max(1, len(strs) // nrep)) % len(strs)] for k in range(nrep)}
+        for bs in sorted(picks):
+            bs = list(bs)
+            for (m, r) in ((1, 1), (2, 1), (1, 7), (3, 3), (5, 2)):
+                out, i = [], 0
+                for tag in path:
+                    if tag in ('iC', 'fC'):
+                        a, b = bs[i], bs[i + 1]
+                        out += [a] * (4 * m) + [b] * (4 * m)
+                        i += 2
+                    elif tag in ('iS', 'fS'):
+                        out += [bs[i]] * r
+                        i += 1
+                    elif tag in ('sign', 'z', 'dot', 'e', 'esign', 'X', 'Xcap'):
+                        out.append(bs[i])
+                        i += 1
+                out += bs[i:]            # whatever the machine never consumed (junk, or nothing)
+                calls.append({'ev': 'parse', 't': 1, 'form': forms[(pi + m) % 4], 'radix': 10, 'bs': out})
+    run_vectors(c, calls, 'parser-paths')
 
 
 def plan_C07(c):
@@ -403,6 +446,7 @@ def plan_C08(c):
 
 def plan_C09(c):
     c.mc('MC_SpecLaws', cfg='MC_SpecLaws' if c.tier != 'quick' else 'MC_SpecLaws_quick')
+    c.mc('MC_Refine', cfg='MC_Refine_gcd_twos', expect='violation')      # RatioRefines: the binary gcd of as_integer_ratio.rs
     # ratio and digest of every boundary operand in every scale: all representations of a value meet in one digest entry
     g_operands(c, lambda x, i: [{'ev': 'ratio', 't': 1, 'x': x}, {'ev': 'hash', 't': 1, 'x': x}, {'ev': 'hs', 't': 1, 'op': ['insert', 'contains', 'remove'][i % 3], 'x': x}])
     v(c, 'c09', 5000, 150000)
@@ -423,11 +467,22 @@ def plan_C11(c):
 
 def plan_C12(c):
     c.mc('MC_BigInt')
+    # design level: the conversion algorithm of into_float.rs in miniature against the declarative ToFloat, all operands
+    c.mc('MC_Float', cfg='MC_Float_into_ok_quick' if c.tier == 'quick' else 'MC_Float_into_ok')
+    if c.tier != 'quick':
+        c.mc('MC_Float', cfg='MC_Float_into_ok_fb5')
+    for ctl in ('no_sticky', 'tie_up', 'adj_off'):
+        c.mc('MC_Float', cfg='MC_Float_' + ctl, expect='violation')
     g_operands(c, lambda x, i: [{'ev': 'tofloat', 't': 1, 'x': x}])
     v(c, 'c12', 2500, 80000)
 
 
 def plan_C13(c):
+    # design level: decode / cut-off / approx_rational / normalize of from_float.rs in miniature against FromFloat, all mini floats
+    c.mc('MC_Float', cfg='MC_Float_from_ok')
+    c.mc('MC_Float', cfg='MC_Float_from_ok_fb5')
+    for ctl in ('trunc', 'no_norm', 'cutoff'):
+        c.mc('MC_Float', cfg='MC_Float_' + ctl, expect='violation')
     # every exponent field of both widths x fraction classes x sign, enumerated by TLC
     calls = []
     for w, sg, bexp, fc in grid(c, 'floats'):
